@@ -30,6 +30,7 @@ without=$(cd "$d" && timeout 600 go test -vet=off -count=1 -run TestSeededDemo .
 echo "demonstration without the change: $without" >> "$res"
 ( cd "$d" && git apply "$out/patch.diff" && rm -f seeded_demo_test.go )
 cd /verif
+stamp=$(mktemp /tmp/vstamp.XXXXXX)
 cp -r evidence /tmp/vseed-evidence.$$ 2>/dev/null
 for c in $checks; do
   tier=quick
@@ -40,5 +41,6 @@ for c in $checks; do
   echo "$o" | grep -E "^(VIOLATION|  \[)" | head -4 | cut -c1-400 >> "$res"
 done
 rm -rf evidence; mv /tmp/vseed-evidence.$$ evidence 2>/dev/null
-git -C /verif status --short replays | awk '{print $2}' | xargs -r rm -rf
+find /verif/replays -type f -newer "$stamp" -print0 2>/dev/null | xargs -0 -r rm -f
 cat "$res"
+rm -f "$stamp"
